@@ -22,9 +22,16 @@ Part 3  `impl FromTree for Policy` in src/policy/concrete.rs and src/policy/sema
         pending(i+1) >= nsc(i) (no pop on an empty stack), pending(i) = pending(i+1) + delta(i), and pending(root) == 1 once every node is ok
         (skipped nodes are leaves, so nobody's entry is orphaned): the final assert.
 
-PRECONDITION of the two from_tree: the root handed in is not itself an "inner value" (its parent, if any, has != 1 children and it is not
-the k of a thresh) -- true for `tree.root()`, which is what FromStr passes.  For a sub-node that IS skipped the function panics
-(`assert_eq!(0, 1)`): reachable through the public API, see the unit report.
+PRECONDITION of the two from_tree (clause root_is_not_an_inner_value): the root handed in is not itself an "inner value" (its parent, if
+any, has != 1 children and it is not the first child of a node named thresh) -- true for `tree.root()`, which is what FromStr passes.
+The same text is ALSO verified without that precondition as `from_tree__handed_any_node` (FromTree::from_tree is a public trait method and
+takes any TreeIterItem): RED on the unchanged tree, genuine -- the traversal consults `node.parent()` for the root of the traversal too,
+so handed the only child of its parent (what `verify_toplevel(name, 1..=1)` returns) or the first child of a node named thresh the
+function skips its own root and `assert_eq!(stack.len(), 1)` fires.  Reproduced against the crate:
+    let t = expression::Tree::from_str("x(pk(A))").unwrap();
+    policy::Concrete::<String>::from_tree(t.root().first_child().unwrap())      // panics: assertion `left == right` failed, left: 0, right: 1
+(same for policy::Semantic; "thresh(and(pk(A),pk(B)),pk(C))" + first_child(): left: 2).  Not reachable through Policy::from_str.
+Miniscript::from_tree guards against exactly this with `n > 0` (its comment: "We do not do this check on the root node").
 """
 import re
 
@@ -73,6 +80,7 @@ DROPPED = [
     "`assert_eq!(a, b)` -> `assert!(a == b)`; `Arc::try_unwrap(x).unwrap()` -> arc_unwrap_unique(x) (that the reference count is 1 is NOT claimed: the Arc was created two lines above and never cloned)",
     "the default arm `x => Err(..UnknownName { name: x.to_owned() })`: `x.to_owned()` -> stub str_to_owned_(x); error enums Error / ParseError / ParseTreeError reduced to the variants the "
     "extracted text constructs; `crate::` / `expression::` path prefixes dropped (R7); enum Policy renamed Concrete / Semantic (two enums of the same name in one file)",
+    "from_tree__handed_any_node (both policies): the from_tree text once more, WITHOUT the precondition that the root is not skipped; kept RED as an INFO obligation without property id (robustness of the public trait method; outside C11's quantifier, see the module docstring)",
     "WHAT the arms build (which name gives which Policy variant, the odds of `or`, the order of popped children) is NOT claimed here except: verify_threshold keeps child order and k (C10 clauses)",
     "NOT covered: the head of Miniscript::from_tree (same stack discipline; its `binary` / wrapper-loop plumbing needs fn-pointer specialisation) -- still R9-head in c12_from_tree",
 ]
@@ -453,8 +461,8 @@ ITEM_CLOSURE = sub("R10-closure-contract",
                    r"\.map\(\|(\w+)\|\s*(Self|TreeIterItem)\s*\{\s*nodes:\s*([\w.]+),\s*index:\s*([^}]+?)\s*\}\)",
                    lambda m: ".map(|%s: usize| -> (o_: TreeIterItem<'s>) ensures o_.nodes == %s && o_.index == %s { %s { nodes: %s, index: %s } })"
                    % ("unused_" if m.group(1) == "_" else m.group(1), m.group(3), m.group(4), m.group(2), m.group(3), m.group(4)))
-FIRST_CHILD_CLOSURE = sub("R10-closure-contract", r"\.map\(\|(\w+)\|\s*(\w+)\s*\+\s*1\s*==\s*self\.index\)",
-                          r".map(|\1: usize| -> (o_: bool) requires \2 < usize::MAX ensures o_ == (\2 + 1 == self.index) { \2 + 1 == self.index })")
+FIRST_CHILD_CLOSURE = sub("R10-closure-contract", r"\.map\(\|(\w+)\|\s*([^()|{}]+?)\)(\s*\.unwrap_or\(false\))",
+                          r".map(|\1: usize| -> (o_: bool) requires \1 < usize::MAX ensures o_ == (\2) { \2 })\3")
 # R8-range: the RangeBounds parameter of verify_n_children specialised to the two shapes the call sites pass
 RANGE_INCL = sub("R8-range", r"\.verify_n_children\(\s*([^,()]+?)\s*,\s*(\d+)\s*\.\.=\s*(\d+)\s*\)", r".verify_n_children_(\1, \2, \3)", required=False)
 RANGE_FROM = sub("R8-range", r"\.verify_n_children\(\s*([^,()]+?)\s*,\s*(\d+)\s*\.\.\s*\)", r".verify_n_children_from_(\1, \2)", required=False)
@@ -657,10 +665,7 @@ class RevPreOrderLoop:
     def __call__(self, text):
         m = re.search(r"\bfor\s+(\w+)\s+in\s+(\w+)\s*\.pre_order_iter\(\)\s*\.rev\(\)\s*\{", text)
         if not m:
-            m2 = re.search(r"\bfor\s+(\w+)\s+in\s+(\w+)\s*\.rtl_post_order_iter\(\)\s*\{", text)
-            if not m2:
-                raise Undecided("policy from_tree (%s): loop `for VAR in ROOT.pre_order_iter().rev()` not found (shape not modelled)" % self.kind)
-            m = m2
+            raise Undecided("policy from_tree (%s): loop `for VAR in ROOT.pre_order_iter().rev()` not found (shape not modelled)" % self.kind)
         close = match_close(text, m.end() - 1)
         body = text[m.end():close]
         if re.search(r"\bbreak\b", body) or re.search(r"\b(for|while|loop)\b", body):
@@ -906,7 +911,9 @@ def build(repo):
             # the same text WITHOUT the precondition on the root: `FromTree::from_tree` is a public trait method and accepts any node.
             # RED on the unchanged tree (genuine, reproduced: see the unit report): handed the only child of its parent (e.g. what
             # `verify_toplevel(name, 1..=1)` returns) or the first child of a node named thresh, the root itself is skipped and `assert_eq!(stack.len(), 1)` fires.
-            vf.fn(rel, anchor, qual=En, rename="from_tree__handed_any_node", props=PROPS,
+            # LEAD: INFO only (no property id): C11 quantifies over TEXT given to a parser, and every parser of the crate hands `tree.root()` to
+            # the policy from_tree; a caller of the public trait method with an inner node is outside the property.  Kept as a robustness note.
+            vf.fn(rel, anchor, qual=En, rename="from_tree__handed_any_node", props=(),
                   rewrites=[R7_PATHS, sub("R7-rename", r"\bPolicy::", En + "::", required=False), ETA, ASSERT_EQ, ARC_UNWRAP, RevPreOrderLoop(kind)],
                   contract=Contract(requires=["%s.valid()" % R], ensures=[]))
     return vf
